@@ -532,6 +532,27 @@ class _Runner:
                      f"an element of the refined grid ({tag}) does not lie inside any element of the coarse grid: {e}",
                      grid=g["name"], vertices=g["V"].tolist(), elements=g["E"].tolist(), seed=self.ctx.seed)
             return
+        # segment spaces on the refined grid are nested over the coarse segment spaces only if every child inherits the domain
+        # index of its parent (seeded change C04-c: the central child of grid.refine() kept index 0)
+        if g.get("D") is not None and how != "bary":
+            cD = api.Grid(g["V"], g["E"], np.asarray(g["D"], dtype=np.uint32))
+            fD = cD.refine()
+            for _ in range(levels - 1):
+                fD = fD.refine()
+            try:
+                pD = parents(cD, fD)
+                childD = np.asarray(fD.domain_indices).astype(int)
+                parD = np.asarray(cD.domain_indices).astype(int)[np.asarray(pD).astype(int)]
+                res.case(f"nested-domain-indices/{g['name']}/{tag}", nontrivial=len(set(parD.tolist())) > 1)
+                if not np.array_equal(childD, parD):
+                    badc = int(np.flatnonzero(childD != parD)[0])
+                    self.cex(f"refined-grid-domain-indices-{tag}",
+                             f"element {badc} of the refined grid ({tag}) has domain index {int(childD[badc])}, its parent has "
+                             f"{int(parD[badc])}: segment spaces on the refined grid are not nested over the coarse ones",
+                             grid=g["name"], vertices=g["V"].tolist(), elements=g["E"].tolist(),
+                             domain_indices=np.asarray(g["D"]).tolist(), child=badc, seed=self.ctx.seed)
+            except RuntimeError:
+                pass
         Pd, i1 = prolongation(cd, fd, par_of)
         Pt, i2 = prolongation(ct, ft, par_of)
         self.nest["incons_max"] = max(self.nest["incons_max"], i1, i2)
